@@ -80,9 +80,9 @@ Theorem C18_names_bank : forall (b : backend) (ty name : string),
 Proof. exact bank_line_literal. Qed.
 Print Assumptions C18_names_bank.
 
-Theorem C18_names_attribute : forall (k attr : string), all_s is_word k = true ->
-  exists line, attribute_line ("i_obj" +++ k) attr = OK line /\
-    literal_at ("auto result = i_obj" +++ k +++ "->getAttribute<float>(") line = Some (LStr attr, ");").
+Theorem C18_names_attribute : forall (obj attr : string),
+  exists line, attribute_line obj attr = OK line /\
+    literal_at ("auto result = " +++ obj +++ "->getAttribute<float>(") line = Some (LStr attr, ");").
 Proof. exact attribute_line_literal. Qed.
 Print Assumptions C18_names_attribute.
 
